@@ -186,7 +186,8 @@ def run_kani(unit_name, repo='/repo', tier='quick', jobs=6, timeout=1500, only=N
     unit = KUnit(os.path.join(VERIF, 'kani', unit_name + '.ku'))
     out = {'unit': unit_name, 'status': 'ok', 'trouble': [], 'harnesses': {}, 'failures': [], 'cmd': '',
            'info': None, 'wall_s': 0.0, 'meta': unit.harnesses}
-    hs = [h for h in unit.harnesses if (tier == 'thorough' or h.get('tier', 'quick') != 'thorough')]
+    # tier=native: a contract-free twin that exists only to replay a contract harness's counterexample natively
+    hs = [h for h in unit.harnesses if h.get('tier') != 'native' and (tier == 'thorough' or h.get('tier', 'quick') != 'thorough')]
     if only:
         hs = [h for h in hs if h['name'] in only]
     if not hs:
@@ -260,6 +261,10 @@ def run_kani(unit_name, repo='/repo', tier='quick', jobs=6, timeout=1500, only=N
         if out['failures'] and not out['trouble']:
             for hname in sorted(set(f['harness'] for f in out['failures'])):
                 cex = concrete_playback(crate, unit, hname, env)
+                meta = next((h for h in unit.harnesses if h['name'] == hname), {})
+                if cex.get('native') != 'panicked' and cex.get('test_block') and meta.get('native'):
+                    native_twin_replay(cex, unit, repo, hname, meta['native'], env)
+                cex.pop('test_block', None)
                 for f in out['failures']:
                     if f['harness'] == hname:
                         f['counterexample'] = cex
@@ -310,6 +315,17 @@ def concrete_playback(crate, unit, hname, env, timeout=420):
                 if k >= 0:
                     blk = s[k:s.find('concrete_playback_run', k)]
                     vals[test] = [ln.strip() for ln in blk.split('\n') if ln.strip().startswith('//') or ln.strip().startswith('vec![')]
+    # keep the text of the first generated test: a contract harness cannot fail natively (contracts are not
+    # executable), its values can be replayed on a contract-free twin harness (native_twin_replay)
+    for root, _, files in os.walk(os.path.join(crate, 'src')):
+        for fn in files:
+            s = open(os.path.join(root, fn)).read()
+            k = s.find('fn ' + tests[0])
+            if k >= 0:
+                a = s.rfind('#[test]', 0, k)
+                b = s.find('\n}', k)
+                if a >= 0 and b >= 0:
+                    cex['test_block'] = (tests[0], s[a:b + 2])
     cmd2 = ['cargo', 'kani', 'playback', '-Z', 'concrete-playback'] + [x for x in unit.flags] + ['--', 'kani_concrete_playback_' + hname]
     try:
         p2 = subprocess.run(cmd2, cwd=crate, capture_output=True, text=True, timeout=timeout, env=env)
@@ -328,6 +344,47 @@ def concrete_playback(crate, unit, hname, env, timeout=420):
         cex['native_output'] = 'timeout in native playback'
     cex['playback_cmd'] = ' '.join(cmd2)
     return cex
+
+
+def native_twin_replay(cex, unit, repo, hname, twin, env, timeout=300):
+    """Replay the concrete values Kani found for a function-contract harness on its contract-free twin: a second
+    scratch copy of the real crate WITHOUT the contract attributes, the generated playback test re-pointed at the twin
+    harness (same kani::any() sequence, the postcondition written as plain asserts), run natively."""
+    import copy
+    u2 = copy.copy(unit)
+    u2.contracts = []
+    test_name, block = cex['test_block']
+    new_name = 'kani_concrete_playback_%s_twin' % twin
+    block = block.replace(test_name, new_name)
+    block = re.sub(r'(concrete_playback_run\(\s*concrete_vals\s*,\s*)%s\b' % re.escape(hname), r'\g<1>%s' % twin, block)
+    try:
+        root2, crate2, _ = prepare_scratch(u2, repo)
+    except Exception as e:  # noqa
+        cex['native_output'] += '\n(twin replay: could not prepare scratch: %s)' % e
+        return
+    try:
+        rel = next(h['file'] for h in unit.harnesses if h['name'] == twin)
+        pth = os.path.join(root2, rel)
+        src = open(pth).read()
+        k = src.rstrip().rfind('}')
+        src = src[:k] + '\n' + block + '\n}\n'
+        open(pth, 'w').write(src)
+        cmd = ['cargo', 'kani', 'playback', '-Z', 'concrete-playback'] + [x for x in unit.flags] + ['--', new_name]
+        p = subprocess.run(cmd, cwd=crate2, capture_output=True, text=True, timeout=timeout, env=env)
+        txt = p.stdout + p.stderr
+        if re.search(r'%s \.\.\. FAILED' % re.escape(new_name), txt):
+            cex['native'] = 'panicked'
+            keep = [ln for ln in txt.split('\n') if re.search(r'panicked at|assertion|overflow|test result: FAILED|^thread ', ln)]
+            cex['native_output'] = 'replayed on the contract-free twin harness %s with the same concrete values:\n%s' % (twin, '\n'.join(keep[:12]))
+            cex['playback_cmd'] = ' '.join(cmd) + '   (scratch copy without the contract attributes)'
+        else:
+            cex['native_output'] += '\n(twin replay on %s did not fail natively)' % twin
+    except subprocess.TimeoutExpired:
+        cex['native_output'] += '\n(twin replay timed out)'
+    except StopIteration:
+        cex['native_output'] += '\n(twin harness %s not found)' % twin
+    finally:
+        shutil.rmtree(root2, ignore_errors=True)
 
 
 def _slug(s):
